@@ -287,3 +287,51 @@ func refEqualOrdered(a, b *JV) bool {
 	}
 	panic("refEqualOrdered: bad kind")
 }
+
+// renderWS renders v with insignificant whitespace (space, newline, tab, carriage return in rotation) around every
+// structural token: the same value as render(v), a different text.
+func renderWS(v *JV) []byte {
+	n := 0
+	ws := func(out []byte) []byte {
+		n++
+		return append(out, " \n\t\r"[n%4])
+	}
+	var r func(out []byte, x *JV) []byte
+	r = func(out []byte, x *JV) []byte {
+		out = ws(out)
+		switch x.K {
+		case JObj:
+			out = append(out, '{')
+			for i := range x.Keys {
+				if i > 0 {
+					out = append(out, ',')
+				}
+				out = ws(out)
+				var sp []byte
+				if x.KSp != nil {
+					sp = x.KSp[i]
+				}
+				out = appendQuoted(out, x.Keys[i], sp)
+				out = ws(out)
+				out = append(out, ':')
+				out = r(out, x.Kids[i])
+			}
+			out = ws(out)
+			out = append(out, '}')
+		case JArr:
+			out = append(out, '[')
+			for i := range x.Kids {
+				if i > 0 {
+					out = append(out, ',')
+				}
+				out = r(out, x.Kids[i])
+			}
+			out = ws(out)
+			out = append(out, ']')
+		default:
+			out = renderTo(out, x)
+		}
+		return ws(out)
+	}
+	return r(nil, v)
+}
